@@ -3,7 +3,7 @@
 set -e
 cd "$(dirname "$0")/govc"
 export GOFLAGS=-mod=mod GOPROXY=off GOSUMDB=off GOTOOLCHAIN=local
-cp /repo/go.sum ./go.sum 2>/dev/null || true
+cp "${VERIF_REPO:-/repo}/go.sum" ./go.sum 2>/dev/null || true
 mkdir -p ../bin
 go build -o ../bin/govc ./cmd/govc
 echo "setup ok: $(../bin/govc version)"
